@@ -18,7 +18,7 @@ def nontrivial(s, run):
 def run(ctx):
     srvflow.run_check(
         ctx, design=DESIGN, edge_cfgs=EDGES, negs=NEGS, invariants=INV, corpus=["server_core.ndjson", "server_cmd.ndjson", "server_cmd_sat.ndjson", "server_fault.ndjson"],
-        thorough_design=THOROUGH, nontrivial=nontrivial, random_flavour=('core', 'fault', 'ready'), random_quick=300,
+        thorough_design=THOROUGH, nontrivial=nontrivial, random_flavour=('core', 'fault', 'ready', 'cmd'), random_quick=360,
         rule="schedules as for C02/C03; the dispatch log (connection, target worker, 'rotation undisturbed after this "
              "dispatch' measured at the increment yield point) is checked by TLC: any W consecutive dispatches inside an "
              "undisturbed window hit W distinct workers; non-trivial = the run contains such a window with W >= 2")
